@@ -34,6 +34,11 @@ pub struct Cfg {
     pub permissive_filter: bool,
     /// block cache with room for two blocks only: every read evicts
     pub tiny_block_cache: bool,
+    /// bits per key of the Bloom filter policy (RainDB's default is 10); reopening with another
+    /// value reads filters that were built with a different number of probes
+    pub bloom_bits: usize,
+    /// how many snapshots may be alive at once in the sequence explorer (default 2)
+    pub max_snapshots: usize,
 }
 
 impl Cfg {
@@ -46,7 +51,17 @@ impl Cfg {
             level_limit: 0,
             permissive_filter: false,
             tiny_block_cache: false,
+            bloom_bits: 10,
+            max_snapshots: 2,
         }
+    }
+    pub const fn with_bloom_bits(mut self, bits: usize) -> Self {
+        self.bloom_bits = bits;
+        self
+    }
+    pub const fn with_max_snapshots(mut self, n: usize) -> Self {
+        self.max_snapshots = n;
+        self
     }
     pub const fn with_tiny_block_cache(mut self) -> Self {
         self.tiny_block_cache = true;
@@ -70,6 +85,8 @@ impl Cfg {
             if self.level_limit > 0 { format!("_levels{}", self.level_limit) } else { String::new() }
         ) + if self.permissive_filter { "_filterAlwaysTrue" } else { "" }
             + if self.tiny_block_cache { "_blockcache2" } else { "" }
+            + &if self.bloom_bits != 10 { format!("_bloom{}", self.bloom_bits) } else { String::new() }
+            + &if self.max_snapshots != 2 { format!("_snapshots{}", self.max_snapshots) } else { String::new() }
     }
     pub fn parse(s: &str) -> Option<Cfg> {
         // T1 | T300 | M2 | D, optional suffix "n" = reuse_log_files false
@@ -94,6 +111,11 @@ impl Cfg {
             "T1p" => Cfg::new(4 << 20, 1, 1, reuse).with_permissive_filter(),
             // two-entry block cache (the smallest RainDB accepts), one entry per block
             "T300c" => Cfg::new(4 << 20, 300, 1, reuse).with_tiny_block_cache(),
+            // other Bloom filter sizes (filters written under one are read under another after a reopen)
+            "T300b2" => Cfg::new(4 << 20, 300, 1, reuse).with_bloom_bits(2),
+            "T300b30" => Cfg::new(4 << 20, 300, 64, reuse).with_bloom_bits(30),
+            // up to four live snapshots
+            "T300s4" => Cfg::new(4 << 20, 300, 1, reuse).with_max_snapshots(4),
             _ => return None,
         })
     }
@@ -274,6 +296,9 @@ pub fn value_for(stamp: u64, key_idx: u8, class: u8, cfg: &Cfg) -> Vec<u8> {
         2 => (cfg.memtable.min(1 << 20)) + 1000,
         _ => 8,
     };
+    if class == 4 {
+        return vec![];
+    }
     if class == 3 {
         // 3000 incompressible bytes: a table block of its own, 1.5 filter ranges (2 KiB) long
         let mut x: u64 = 0x9E37_79B9_7F4A_7C15 ^ (stamp << 8) ^ key_idx as u64;
@@ -323,7 +348,7 @@ pub fn db_options(fs: &VerifFs, cfg: &Cfg) -> DbOptions {
         max_file_size: cfg.file,
         max_block_size: cfg.block,
         filesystem_provider: Arc::new(fs.clone()) as Arc<dyn FileSystem>,
-        filter_policy: if cfg.permissive_filter { Arc::new(AlwaysMayMatch) } else { Arc::new(raindb::BloomFilterPolicy::new(10)) },
+        filter_policy: if cfg.permissive_filter { Arc::new(AlwaysMayMatch) } else { Arc::new(raindb::BloomFilterPolicy::new(cfg.bloom_bits)) },
         block_cache: raindb::verif::block_cache(if cfg.tiny_block_cache { 2 } else { 4096 }),
         create_if_missing: true,
         error_if_exists: false,
@@ -464,7 +489,7 @@ impl World {
     pub fn enabled(&self, op: &Op) -> bool {
         match op {
             Op::Release(i) => (*i as usize) < self.snaps.len(),
-            Op::Snap => self.snaps.len() < 2,
+            Op::Snap => self.snaps.len() < self.cfgs[0].max_snapshots,
             Op::Iter => self.iter.is_none(),
             Op::DropIter => self.iter.is_some(),
             Op::Reopen(_) => self.snaps.is_empty() && self.iter.is_none(),
